@@ -10,6 +10,7 @@ package verifhook
 import (
 	"fmt"
 	"os"
+	"path/filepath"
 	"strconv"
 	"sync"
 )
@@ -61,4 +62,28 @@ func Point(name string) {
 	if f != nil {
 		f(name)
 	}
+}
+
+// PointKey marks a durable write of the given layer (database, log) to the given key; the point
+// is named after the layer and the printable prefix of the key.
+func PointKey(layer string, key []byte) {
+	n := 0
+	for n < len(key) && n < 20 && key[n] >= 0x20 && key[n] < 0x7f {
+		n++
+	}
+	name := layer + ":" + string(key[:n])
+	if n < len(key) && n < 20 {
+		m := len(key)
+		if m > n+4 {
+			m = n + 4
+		}
+		name += fmt.Sprintf("~%x", key[n:m])
+	}
+	Point(name)
+}
+
+// PointPath marks a durable write of the given layer to the file at path; the point is named
+// after the layer and the last two path elements.
+func PointPath(layer string, path string) {
+	Point(layer + ":" + filepath.Base(filepath.Dir(path)) + "/" + filepath.Base(path))
 }
